@@ -38,9 +38,12 @@ fn flow(challenge: PkceCodeChallenge, verifier: PkceCodeVerifier) -> (String, St
 }
 
 fn flow_one(challenge: PkceCodeChallenge, verifier: PkceCodeVerifier, response_type: Option<&str>) -> (String, String, String) {
+    // (the endpoints are https for some response types and plain http on another host for others: the verifier is sent to
+    // whatever token endpoint is configured)
+    let plain_http = response_type.map(|r| r.len() % 5 == 0).unwrap_or(false);
     let client = BasicClient::new(ClientId::new("aaa".to_string()))
-        .set_auth_uri(AuthUrl::new("https://example.com/auth".to_string()).unwrap())
-        .set_token_uri(TokenUrl::new("https://example.com/token".to_string()).unwrap());
+        .set_auth_uri(AuthUrl::new(if plain_http { "http://idp.internal:8080/auth" } else { "https://example.com/auth" }.to_string()).unwrap())
+        .set_token_uri(TokenUrl::new(if plain_http { "http://idp.internal:8080/token" } else { "https://example.com/token" }.to_string()).unwrap());
     // for some response types the builders first receive a challenge / verifier that is then
     // replaced: the pair that reaches the server is the last one set on each side
     let twice = response_type.map(|r| r.len() % 2 == 1).unwrap_or(false);
@@ -166,6 +169,65 @@ pub fn randbulk(ws: &[&str]) -> String {
     all.join(",")
 }
 
+/// `FDSTARVED`: the generators while the process cannot open another file (descriptor table full):
+/// the values are as fresh as ever (the operating system's generator needs no descriptor), or the call
+/// fails loudly - never a constant
+pub fn fdstarved() -> String {
+    extern "C" {
+        fn getrlimit(resource: i32, rlim: *mut [u64; 2]) -> i32;
+        fn setrlimit(resource: i32, rlim: *const [u64; 2]) -> i32;
+    }
+    const RLIMIT_NOFILE: i32 = 7;
+    let mut old = [0u64; 2];
+    if unsafe { getrlimit(RLIMIT_NOFILE, &mut old) } != 0 {
+        return "ok (no rlimit here)".to_string();
+    }
+    let low = [old[0].min(256), old[1]];
+    if unsafe { setrlimit(RLIMIT_NOFILE, &low) } != 0 {
+        return "ok (rlimit not adjustable)".to_string();
+    }
+    let mut held = vec![];
+    while let Ok(f) = std::fs::File::open("/dev/null") {
+        held.push(f);
+        if held.len() > 100_000 {
+            break;
+        }
+    }
+    let drawn = std::panic::catch_unwind(|| {
+        let mut v: Vec<String> = vec![];
+        for n in [32u32, 43, 64, 96] {
+            for _ in 0..6 {
+                v.push(PkceCodeChallenge::new_random_sha256_len(n).1.secret().clone());
+            }
+        }
+        for n in [1u32, 16, 33, 96] {
+            for _ in 0..6 {
+                v.push(CsrfToken::new_random_len(n).secret().clone());
+            }
+        }
+        for _ in 0..6 {
+            v.push(PkceCodeChallenge::new_random_sha256().1.secret().clone());
+            v.push(CsrfToken::new_random().secret().clone());
+        }
+        v
+    });
+    drop(held);
+    unsafe { setrlimit(RLIMIT_NOFILE, &old) };
+    match drawn {
+        Err(_) => "ok (refused loudly)".to_string(),
+        Ok(v) => {
+            let long: Vec<&String> = v.iter().filter(|s| s.len() >= 20).collect();
+            let distinct: std::collections::HashSet<&String> = long.iter().cloned().collect();
+            let flat = long.iter().filter(|s| s.bytes().all(|b| b == s.as_bytes()[0])).count();
+            if distinct.len() != long.len() || flat > 0 {
+                format!("constant-values-without-descriptors distinct={} of {} single-letter={}", distinct.len(), long.len(), flat)
+            } else {
+                "ok".to_string()
+            }
+        }
+    }
+}
+
 fn b64url_decode(s: &str) -> Option<Vec<u8>> {
     let mut out = Vec::with_capacity(s.len() * 3 / 4);
     let (mut acc, mut bits) = (0u32, 0u32);
@@ -274,6 +336,24 @@ pub fn seceq(ws: &[&str]) -> String {
             // a value that was compared and hashed is dropped, and the next value of the same length
             // takes over its buffer (what an allocator does for a free followed by an allocation of
             // the same size): nothing remembered about the old value may be attributed to the new one
+            // an application's Hasher that panics on what it is fed (an integer-only hasher), the panic contained: the next
+            // comparison and the next hash on this thread are right all the same
+            {
+                struct Picky;
+                impl Hasher for Picky {
+                    fn finish(&self) -> u64 {
+                        0
+                    }
+                    fn write(&mut self, _: &[u8]) {
+                        panic!("this hasher takes integers only");
+                    }
+                    fn write_u8(&mut self, _: u8) {}
+                    fn write_usize(&mut self, _: usize) {}
+                    fn write_u64(&mut self, _: u64) {}
+                }
+                let victim = $t::new(format!("{}-hashed-by-a-picky-hasher", a));
+                let _ = std::panic::catch_unwind(std::panic::AssertUnwindSafe(|| victim.hash(&mut Picky)));
+            }
             for s in [&a, &b] {
                 if !s.is_empty() {
                     let d = $t::new(decoy_of(s.len(), s));
